@@ -132,6 +132,7 @@ class Interp:
         fork_while: bool = False,
         concrete_while: bool = False,
         named_containers: bool = False,
+        heap: bool = False,
     ):
         self.mod = mod
         self.consts = dict(mod.consts)
@@ -155,6 +156,8 @@ class Interp:
         self.auto_inline = auto_inline
         self.fork_while = fork_while
         self.named_containers = named_containers   # a local bound to a fresh empty container keeps its name as identity
+        self.heap_on = heap            # attribute stores are visible to later reads of the same attribute term on the path
+        self.heap: Dict[Sym, Sym] = {}
         self.concrete_while = concrete_while   # a while loop whose test folds to a constant is executed iteration by iteration
         self.inline_stack: List[int] = []
         self.yield_hooks: List[Any] = []
@@ -185,6 +188,15 @@ class Interp:
             if any(x is fn for x in nodes) and "." in q:
                 self.cur_class = q.rsplit(".", 1)[0]
         self.top_fn = fn
+        # locals that are mutated in place (x.append(..), x[k] = .., del x[k] ...): a non-empty display bound to such a name
+        # must not be read as if it still were what the literal says
+        self.mutated_locals = set()
+        for n_ in ast.walk(fn):
+            if isinstance(n_, ast.Call) and isinstance(n_.func, ast.Attribute) and isinstance(n_.func.value, ast.Name) and n_.func.attr in (
+                    "append", "pop", "extend", "insert", "remove", "clear", "update", "add", "discard", "setdefault", "popitem", "sort", "reverse", "appendleft", "popleft"):
+                self.mutated_locals.add(n_.func.value.id)
+            elif isinstance(n_, ast.Subscript) and isinstance(n_.ctx, (ast.Store, ast.Del)) and isinstance(n_.value, ast.Name):
+                self.mutated_locals.add(n_.value.id)
         from . import sym as _sym
         _sym.NON_OPTIONAL_RETURNS.clear()
         for q, nodes in self.mod.defs.items():
@@ -197,6 +209,7 @@ class Interp:
             self.choices = list(prefix)
             self.pos = 0
             self.decided = dict(self.assume)
+            self.heap = {}
             self.events = []
             self.frames = []
             self.defdepth = []
@@ -281,6 +294,8 @@ class Interp:
         return None
 
     def _rewrite(self, s: Sym) -> Sym:
+        if self.heap_on and s in self.heap:
+            return self.heap[s]
         if s in self.bindings:
             return ("c", self.bindings[s])
         if s in self.aliases:
@@ -628,6 +643,10 @@ class Interp:
                 v in (("dictd", ()), ("list", ()), ("set", ()), ("tuple", ())) or (v[0] == "call" and v[1] in (N("dict"), N("list"), N("set")) and not v[2] and not v[3])):
             self.bind(t.id, N(t.id))
             return
+        if isinstance(t, ast.Name) and self.depth == 0 and not self.inline_stack and t.id in getattr(self, "mutated_locals", ()) and (
+                (v[0] in ("list", "set", "dictd") and v[1]) or (v[0] == "c" and isinstance(v[1], (tuple, frozenset, dict)) and len(v[1]) > 0 and False)):
+            self.bind(t.id, N(t.id))        # contents change later: keep the identity only
+            return
         if isinstance(t, ast.Name):
             self.bind(t.id, self._rewrite_value(v))
             return
@@ -644,6 +663,12 @@ class Interp:
             return
         if isinstance(t, ast.Starred):
             self._assign(t.value, ("star", v), st, quiet)
+            return
+        if self.heap_on and isinstance(t, ast.Attribute):
+            # the target is the attribute *location*: evaluate the object, not the attribute's current value
+            tgt = ("a", self._ev(t.value), t.attr)
+            self.emit("store", (tgt, v), st)
+            self.heap[tgt] = v
             return
         tgt = self._ev(t)
         self.emit("store", (tgt, v), st)
